@@ -12,6 +12,9 @@ package corerad
 //	peer(i)     -> Verify     an inconsistent RA from another router: the `ours` argument of OnInconsistentRA
 //	stop(i)     -> Final      cancellation with terminate() = true: last RA
 //	scrape      -> Scrape     Registry.Gather: forwarding gauge and misconfiguration gauge of every interface
+//	            -> ScrapeIdle the same scrape visiting a monitoring / unused interface (0-2 of them, anywhere in the
+//	                          interface list, their forwarding flags flipped like the others): its own forwarding
+//	                          gauge, no misconfiguration series
 //	api         -> Api        GET /_/api/interfaces: router_lifetime_seconds of every interface
 //
 // Per generation the driver records the RA, whether the misconfiguration was surfaced (log line / gauge sample) and
@@ -35,9 +38,10 @@ import (
 )
 
 func c04Config(r *verifh.Rand) (toml string, n int, lifetimes []string) {
-	var b strings.Builder
+	var stanzas []string
 	n = 1 + r.Intn(3)
 	for i := 0; i < n; i++ {
+		var b strings.Builder
 		fmt.Fprintf(&b, "[[interfaces]]\nname = \"v%d\"\nadvertise = true\nsource_lla = false\n", i)
 		maxI := verifh.Pick(r, []int{4, 4, 8, 10, 600})
 		fmt.Fprintf(&b, "max_interval = \"%ds\"\n", maxI)
@@ -91,8 +95,28 @@ func c04Config(r *verifh.Rand) (toml string, n int, lifetimes []string) {
 			b.WriteString("  [[interfaces.pref64]]\n")
 		}
 		b.WriteString("\n")
+		stanzas = append(stanzas, b.String())
 	}
-	return b.String(), n, lifetimes
+	// interfaces that do not advertise: monitoring (m*) or unused (u*; an unused stanza may carry a full
+	// advertising configuration), inserted anywhere -- in particular AFTER an advertising interface
+	idle := verifh.Pick(r, []int{0, 1, 1, 2})
+	for k := 0; k < idle; k++ {
+		var s string
+		switch r.Intn(3) {
+		case 0:
+			s = fmt.Sprintf("[[interfaces]]\nname = \"m%d\"\nmonitor = true\n\n", k)
+		case 1:
+			s = fmt.Sprintf("[[interfaces]]\nname = \"u%d\"\n\n", k)
+		default:
+			s = fmt.Sprintf("[[interfaces]]\nname = \"u%d\"\nadvertise = false\ndefault_lifetime = \"1800s\"\n  [[interfaces.prefix]]\n  prefix = \"2001:db8:%d::/64\"\n\n", k, 100+k)
+		}
+		pos := len(stanzas) // after every advertising interface
+		if r.Chance(50) {
+			pos = r.Intn(len(stanzas) + 1)
+		}
+		stanzas = append(stanzas[:pos], append([]string{s}, stanzas[pos:]...)...)
+	}
+	return strings.Join(stanzas, ""), n, lifetimes
 }
 
 type c04Iface struct {
@@ -140,6 +164,26 @@ func c04Run(t *testing.T, out *verifh.Out, r *verifh.Rand, id, toml string, life
 
 	var ifs []*c04Iface
 	var cfgTerms, fwd0Terms []string
+	// interfaces that do not advertise: no advertiser, only the shared State / Metrics know them
+	var idle []*c04Iface
+	idleAfterAdv := false
+	for k, ifi := range cfg.Interfaces {
+		if ifi.Advertise {
+			continue
+		}
+		x := &c04Iface{name: ifi.Name}
+		idle = append(idle, x)
+		f := r.Chance(60)
+		st.fwd[x.name] = f
+		fwd0Terms = append(fwd0Terms, verifh.Pair(in.N("if:"+x.name), verifh.B(f)))
+		// what the stanza WOULD advertise (nothing for a monitoring interface): the scrape must not look at it
+		if base, _, err := ifi.RouterAdvertisement(true); err == nil {
+			cfgTerms = append(cfgTerms, verifh.Pair(in.N("if:"+x.name), coqRA(base, in)))
+		}
+		if k > 0 && cfg.Interfaces[k-1].Advertise {
+			idleAfterAdv = true
+		}
+	}
 	for _, task := range w.srv.BuildTasks(*cfg, w.h) {
 		a, ok := task.(*Advertiser)
 		if !ok {
@@ -266,6 +310,9 @@ func c04Run(t *testing.T, out *verifh.Out, r *verifh.Rand, id, toml string, life
 	for s := 0; s < steps; s++ {
 		x := ifs[r.Intn(len(ifs))]
 		op := r.Intn(100)
+		if op < 22 && len(idle) > 0 && r.Chance(30) {
+			x = idle[r.Intn(len(idle))] // the only thing that happens to an idle interface: its flag flips
+		}
 		switch {
 		case op < 22: // flip
 			v := !st.fwd[x.name]
@@ -378,6 +425,12 @@ func c04Run(t *testing.T, out *verifh.Out, r *verifh.Rand, id, toml string, life
 				x.logs = w.logs.count(x.name)
 				emitGen(x, "Scrape", nil, nil, &mis, fwdG, rd)
 			}
+			for _, x := range idle {
+				fwdG, mis := c04ScrapeOf(ss, x.name)
+				rd := st.reads(x.name) - x.reads
+				x.reads = st.reads(x.name)
+				emitGen(x, "ScrapeIdle", nil, nil, &mis, fwdG, rd)
+			}
 		default: // api
 			status, body, p := w.get("/_/api/interfaces")
 			script = append(script, "api")
@@ -413,7 +466,10 @@ func c04Run(t *testing.T, out *verifh.Out, r *verifh.Rand, id, toml string, life
 	}
 	synctest.Wait()
 
-	tags := []string{fmt.Sprintf("interfaces:%d", len(ifs))}
+	tags := []string{fmt.Sprintf("interfaces:%d", len(ifs)), fmt.Sprintf("idle-interfaces:%d", len(idle))}
+	if idleAfterAdv {
+		tags = append(tags, "idle-listed-after-advertising")
+	}
 	for _, lt := range lifetimes {
 		switch {
 		case lt == "absent" || lt == "auto" || lt == "0s":
@@ -437,4 +493,28 @@ func c04Run(t *testing.T, out *verifh.Out, r *verifh.Rand, id, toml string, life
 		Observed: trace,
 		Tags:     tags,
 	})
+}
+
+// c04ScrapeOf projects one scrape onto an interface that does not advertise: its forwarding gauge and whether
+// ANY corerad_advertiser_misconfiguration series carries its name (whatever the details label and the value).
+func c04ScrapeOf(ss []mSample, name string) (fwdG *bool, mis bool) {
+	for _, smp := range ss {
+		isX := false
+		for _, l := range smp.Labels {
+			if l[0] == "interface" && l[1] == name {
+				isX = true
+			}
+		}
+		if !isX {
+			continue
+		}
+		switch smp.Name {
+		case ifiForwarding:
+			v := smp.Value == 1
+			fwdG = &v
+		case advMisconfiguration:
+			mis = true
+		}
+	}
+	return fwdG, mis
 }
